@@ -5,7 +5,7 @@ import "verif/sim/core"
 func infoC08() core.Info {
 	return core.Info{
 		Level: "fault_enumeration",
-		Rule:  "one plan = one or two valid base streams of one CRC mode (library Writer under a seeded Write partition; reference encoder in greedy, literal-only or seed-chosen-parse mode incl. position fields that alias modulo the window) plus sometimes a random/crafted raw byte string. Per base stream the executor enumerates: the undamaged stream; EOF after EVERY prefix length (streams up to all_below bytes, boundaries + seeded sample above); EVERY single-bit flip (streams <= 512 bytes, header/edges + seeded sample above); declared-size edits (-1, 0, true-1, true+1, true-2/-3/-59/-60/+60, 2^31-1, -2^31, -true, ...) each with stale and with recomputed CRC; CRC byte edits; trailing bytes; dropped/doubled bytes; splices with the other stream; underlying-reader error at offset k. Every damaged stream is read to the end with a rotation of the plan's Read buffer tape and judged against the independent decoder. Evaluations = executions (one damaged stream read once). Non-trivial execution: header readable, NewReader succeeded and at least one non-empty Read was made. Distinct: distinct transcript hash (stream digest + every Read result + Close result); at most 256 hashes are reported per plan, the probe distinct-nontrivial-executions-summed-per-plan has the full per-plan sum.",
+		Rule:  "one plan = one or two valid base streams of one CRC mode (library Writer under a seeded Write partition; reference encoder in greedy, literal-only or seed-chosen-parse mode incl. position fields that alias modulo the window) plus sometimes a random/crafted raw byte string. Per base stream the executor enumerates: the undamaged stream; EOF after EVERY prefix length (streams up to all_below bytes, boundaries + seeded sample above); EVERY single-bit flip (streams <= 512 bytes, header/edges + seeded sample above); declared-size edits (-1, 0, true-1, true+1, true-2/-3/-59/-60/+60, 2^31-1, -2^31, -true, ...) each with stale and with recomputed CRC; CRC byte edits; trailing bytes; dropped/doubled bytes; splices with the other stream; underlying-reader error at offset k. Every damaged stream is read to the end with a rotation of the plan's Read buffer tape and judged against the independent decoder. Evaluations = executions (one damaged stream read once). Non-trivial execution: header readable, NewReader succeeded and at least one non-empty Read was made. Distinct: distinct transcript hash (stream digest + every Read result + Close result); at most 256 hashes are reported per plan, the probe distinct-nontrivial-executions-summed-per-plan has the full per-plan sum. Reader.Close is called three times per execution; the verdict must not change between the calls.",
 		Real:  realCode,
 		Stub:  []string{"underlying io.Reader (chunk tape, (0,nil) reads, error injection)", "independent LZHUF decoder/encoder and bitwise CRC-16 (ref/lzhuf) as judge and as second source of valid streams"},
 		Assumptions: []string{"library runs on the Go 1.26.8 standard library, not 1.24.0",
